@@ -203,6 +203,7 @@ class StoreModel(Model):
             ev.append(('add_link', g, 'a', 'c'))
             ev.append(('upd_prop', g, 'a', 'P', '1'))
             ev.append(('upd_prop', g, 'b', 'P', '2'))
+            ev.append(('upd_prop', g, 'a', 'Type', 'Facility'))      # the same node id has another type in the other graphs
             # a single node "moved" by rewriting its graph id: refused (whole graphs are re-keyed, not nodes) - if it is
             # carried out, the frame condition judges what happened to the other graph
             ev.append(('upd_prop', g, 'a', 'GraphID', GIDS[(GIDS.index(g) + 1) % len(GIDS)]))
@@ -358,6 +359,19 @@ class StoreModel(Model):
                     g.validate_graph()
                 except Exception as e:
                     v.append((f'read-isolation/{fl}/validate_graph', f'{gid} is complete but validate_graph() raised {type(e).__name__}: {e}'))
+            # the listings by class, and by class and type, are listings of THIS graph
+            for cls_ in ('NetworkNode',):
+                for ty in (None, 'VM', 'Facility'):
+                    exp_ = sorted((d.get('NodeID') for _, d in raw[gid].nodes(data=True)
+                                   if d.get('Class') == cls_ and (ty is None or d.get('Type') == ty)), key=repr)
+                    try:
+                        lst = g.get_all_nodes_by_class(label=cls_) if ty is None else g.get_all_nodes_by_class_and_type(label=cls_, ntype=ty)
+                        lst = sorted(lst, key=repr)
+                    except Exception as e:
+                        lst = f'raises {type(e).__name__}'
+                    if lst != exp_:
+                        v.append((f'read-isolation/{fl}/listing-by-class' + ('' if ty is None else '-and-type'),
+                                  f'{gid}: {cls_}/{ty} lists {lst}, store holds {exp_}'))
             if want:
                 for nid in set(want):
                     if want.count(nid) > 1:
